@@ -369,6 +369,11 @@ func run_root(f objective_root, x ConstVector, args ...interface{}) (Vector, err
     }
   }
 
+  // with a finite number of iterations epsilon <= 0 simply means `run all
+  // iterations', otherwise nothing would ever stop the algorithm
+  if !(epsilon.Value > 0.0) && maxIterations.Value == int(^uint(0) >> 1) && hook.Value == nil {
+    return nil, fmt.Errorf("epsilon must be positive if neither MaxIterations nor a hook is given (got %v)", epsilon.Value)
+  }
   return newton_root(f, x, epsilon, maxIterations, hook, constraints, hessianModification, inSitu, options)
 }
 
@@ -403,6 +408,11 @@ func run_min(f objective_min, x ConstVector, getPhi func(x, p ConstVector) objec
     }
   }
 
+  // with a finite number of iterations epsilon <= 0 simply means `run all
+  // iterations', otherwise nothing would ever stop the algorithm
+  if !(epsilon.Value > 0.0) && maxIterations.Value == int(^uint(0) >> 1) && hook.Value == nil {
+    return nil, fmt.Errorf("epsilon must be positive if neither MaxIterations nor a hook is given (got %v)", epsilon.Value)
+  }
   return newton_min(f, x, getPhi, epsilon, maxIterations, hook, constraints, hessianModification, inSitu, options)
 }
 
